@@ -266,7 +266,14 @@ def o_exactly_once(spec, tr):
     if spec.cancelable:
         for k, es in want.items():
             for e in es:
-                trace_pos.setdefault(e["root"], set()).update(got.get(k, []))
+                if k[2] is None:
+                    # the parent's id was never observed (a root created from the context of a span that is still open):
+                    # the record is recognised by name and trace alone
+                    for kk, v in got.items():
+                        if kk[0] == k[0] and kk[1] == k[1]:
+                            trace_pos.setdefault(e["root"], set()).update(v)
+                else:
+                    trace_pos.setdefault(e["root"], set()).update(got.get(k, []))
         for root, ps in trace_pos.items():
             if len(ps) > 1:
                 out.append("trace %x was delivered in %d report calls (lines %s), not in a single one" % (spec.traces[root]["trace"], len(ps), sorted(ps)))
